@@ -139,7 +139,8 @@ CHECKS = [
         "resolve_aliases, str(int) as injective UF. Also under contract: Transformer._create_enum (one member per public "
         "enumerator in declaration order, name = identifier without the common prefix - else without the namespace prefix - "
         "lower-cased, value and C identifier kept, bitfield for flags) with _enum_common_prefix, strip_identifier and the "
-        "enumerator list (child_list) by assumed contract, and the emission of members / constants. "
+        "enumerator list (child_list) by assumed contract, and the emission of constants, members and the <enumeration> / <bitfield> "
+        "elements (name, c:type, registered type, error domain, one <member> per member in declaration order). "
         "One known finding (platform-width unsigned types are not wrapped).", "DESIGN.md section 4 C13"),
     chk("C04", "Contracts on the real prefix matcher Transformer._split_c_string_for_namespace_matches (three loops, inner break, "
         "sort with key, map) and on _sort_matches, _strip_symbol, _create_function, Namespace.append/remove and "
